@@ -401,6 +401,13 @@ def run_hist(case):
                 return res
             sh[t].last = idx
         else:
+            # sanitizer-style poisoning: the priority array is allocated with
+            # np.empty, so slots beyond the filled region hold unspecified
+            # memory; make that memory hostile - correct code never reads it
+            for tt in range(n_tasks):
+                bb = sb(tt)
+                bb.priority.priority[len(bb):] = float(rng.choice([1e12, np.nan]))
+                res.see("poisoned_unfilled_slots", int(bb.buffer_size - len(bb)))
             ok, _ = guarded(res, "C08/raises/reset_max_priority",
                             buf.reset_max_priority)
             if not ok:
